@@ -277,6 +277,11 @@ def props_of(conj, sig, group):
         if conj == 'nopanic':
             ps.add('C13')
         return ps
+    if kind == 'twowriters':
+        ps.add('C15')
+        if conj == 'nopanic':
+            ps.add('C13')
+        return ps
     if kind == 'awalk':
         ps.add('C15')
         if conj == 'nopanic':
